@@ -149,6 +149,9 @@ func genTree(r *rand.Rand, depth int, root bool) *tnode {
 		n.Content = nil
 	case 1:
 		n.Content = gen.Content(r, "rand", 1+r.Intn(n.Chunk))
+	case 2:
+		// repeated chunks (identical blocks occurring several times in one file)
+		n.Content = gen.Content(r, []string{"zero", "period3", "period8"}[r.Intn(3)], 8+r.Intn(60))
 	default:
 		n.Content = gen.Content(r, "rand", 1+r.Intn(40))
 	}
